@@ -55,6 +55,7 @@ CFG = dict(
         "operands_unary_exhaustive": 2906 * STAGES,
         "tuples_convunit_exhaustive": 6016 * STAGES,
         "tuples_convu64_exhaustive": 248004 * STAGES,
+        "helper_evaluations_with_a_literal_operand": 10000000,
         "pairs_bin64_random": 1000000,
         "pairs_bin32_random": 1000000,
         "tuples_convu64_random": 1000000,
